@@ -114,7 +114,7 @@ const (
 // NewPool builds the operation pool for one key type / hash algorithm / base-create variant.
 func NewPool(kt string, code uint, variant string) *Pool {
 	p := &Pool{KT: kt, Code: code, Variant: variant, Ops: map[string]*PoolOp{}, Keys: map[string]*Key{}}
-	for _, n := range []string{"r0", "r1", "r2", "r1b", "u0", "u1", "u2", "u3", "u1b", "v0", "v1", "v0b", "w0", "a0"} {
+	for _, n := range []string{"r0", "r1", "r2", "r1b", "u0", "u1", "u2", "u3", "u1b", "v0", "v1", "v0b", "w0", "a0", "a1"} {
 		p.Keys[n] = NewKey(kt, n+"/"+variant)
 	}
 	k := func(n string) *Key { return p.Keys[n] }
@@ -264,9 +264,11 @@ func NewPool(kt string, code uint, variant string) *Pool {
 			}
 			switch b.typ {
 			case "update":
-				upd(id, b.reveal, c("a0"), svc("evil"), m, noAuth, kindID, b.id)
+				upd(id, b.reveal, c("a1"), svc("evil"), m, noAuth, kindID, b.id)
 			case "recover":
-				rec(id, b.reveal, c("a0"), c("w0"), svc("evil"), m, noAuth, kindID, b.id)
+				// next recovery commitment of a second attacker key: a forged recover must not be refused merely
+				// because it re-commits to the key it carries
+				rec(id, b.reveal, c("a1"), c("w0"), svc("evil"), m, noAuth, kindID, b.id)
 			case "deactivate":
 				dea(id, b.reveal, m, noAuth, kindID, b.id)
 			}
